@@ -294,6 +294,7 @@ package engine
 
 // range deletion of the in-memory batch: the end key is EXCLUSIVE, as for rocksdb / pebble DeleteRange - every key
 // handed to the index for deletion is strictly below end (partial contract: only this call-site assertion)
+//@ property C20 C07
 //@ func (wb *memWriteBatch) DeleteRange(start []byte, end []byte)
 //@   opt only=ASSERT
 //@   opt autoloops
